@@ -79,3 +79,11 @@ C('C31', 'differential oracle: decorated vs undecorated cdef through the real pa
 C('C09', 'differential oracle: gcc evaluates the same expression text in context; a C-typing evaluator only filters out C-undefined expressions and classifies disagreements; icontract on _c_div/_parse_constant',
   'Exploration: depth-bounded expression trees over decimal/octal/hex literals with every u/l suffix, character constants with escapes, unary +/- and + - * / % << >> & | ^, placed as array lengths, bitfield widths, enumerators, #define and static const values; values compared in in-line, emitted ABI module and compiled API module.',
   'Evaluator vs gcc disagreement makes the run inconclusive (0 observed); initialisers stay in the declared type\'s range. Known finding: unsigned-typed operands.')
+
+C('C23', 'determinism across fresh processes/hash seeds (sha256 of generated bytes), icontract postcondition on recompiler._make_c_or_py_source (flag <=> bytes changed), fault enumeration of the write path (sys.monitoring LINE failpoints, short writes, strace kill injection per syscall)',
+  'Exploration + fault enumeration: generated cdef specs (API/ABI, include(), extern "Python", embedding, non-ASCII and CR/CRLF sources) emitted through 4 entry points in 6 processes with different PYTHONHASHSEED and histories; idempotence steps over 7 kinds of pre-existing targets with mtime/inode; every LINE event of the write path, 47 short-write offsets and every syscall of the write window (strace inject KILL) as crash points: target must be exactly old or exactly new content.',
+  'The crash-point enumeration is complete for each sampled regeneration (listed in the evidence); the sampling of cdefs around it is exploration. Linux/ext4 rename semantics.',
+  category='fault_enumeration')
+C('C30', 'fuzzing with an exception-class oracle (Python parser) and ASan/UBSan + crash monitoring (C parser via typeof on compiled FFIs) plus a libFuzzer target on parse_c_type.c rebuilt from the tree',
+  'Exploration: grammar-generated declarations and type strings, token-level and byte-level mutants, cffi-specific trivia; Python side: any exception outside the documented set is a violation keyed by (type, raising function); C side: 40k type strings on empty and populated contexts under ASan/UBSan, inputs around the 1200-opcode and recursion limits, lone surrogates; libFuzzer 8 s (120 s thorough).',
+  'Resource blow-ups (MemoryError, RecursionError, watchdog) are counted separately, not judged. 13 recorded findings: non-cffi exception classes escaping from specific sites.')
